@@ -156,6 +156,15 @@ theorem refSolve_optimal_spec {m : Model (Ext K)} {v : K} {w : List (String × K
     obtain ⟨a, hmem', _, hobj⟩ := feasible_has_representative ha hc hf
     exact hbest (v', a) (mem_valList.2 ⟨hmem', by rw [hobj, hv']⟩)
 
+/-- the same in order notation: a reported minimum is `≤`, a reported maximum `≥`, the objective of every
+assignment that satisfies the model. -/
+theorem refSolve_optimal_le {m : Model (Ext K)} {v : K} {w : List (String × K)}
+    (h : refSolve m = .optimal v w) (hc : Closed m = true) {ρ : String → K}
+    (hf : srcFeasible m ρ = true) {v' : K} (hv' : eval ρ m.objective = some v') :
+    (m.optType = .min → v ≤ v') ∧ (m.optType = .max → v' ≤ v) := by
+  have hb := (refSolve_optimal_spec h).2.2.2 hc ρ hf v' hv'
+  constructor <;> intro ho <;> rw [ho] at hb <;> simpa [better] using hb
+
 /-- converse: a closed model with enumerable domains, an optimisation direction, some satisfying
 assignment, and an objective that is defined at every satisfying assignment gets the verdict `optimal`. -/
 theorem refSolve_optimal_complete {m : Model (Ext K)} {asg : List (List (String × K))}
